@@ -447,6 +447,9 @@ def write_evidence(pid: str, tier: str, seed: int, prop: t.Any, m: t.Dict[str, t
     }
     if exhaustive:
         cov['exhaustive'] = True
+    ex_suites = [s_.name for s_ in prop.suites(tier) if s_.exhaustive]
+    if ex_suites and not m['budget_hit']:
+        cov['exhaustive_suites'] = ex_suites    # finite sub-domains enumerated completely on this run
     extra = getattr(prop, 'merge_extra', None)
     if extra is not None and m['extra']:
         cov.update(extra(m['extra']))
